@@ -107,7 +107,7 @@ func unescapeSMT(s string) string {
 func (x *sexp) String() string {
 	if x.list == nil {
 		if x.str {
-			return strconv.Quote(x.atom)
+			return smtString(x.atom)
 		}
 		return x.atom
 	}
@@ -326,8 +326,46 @@ func replayGeneric(e *Engine, opt Options, id string, g *Group) (ReplayResult, b
 		terms = append(terms, w.Term)
 	}
 	base := strings.TrimSuffix(strings.TrimSpace(o.Query), "(get-model)")
+	// recursive spec functions are uninterpreted in proofs; for a faithful
+	// counterexample give them their real definition (and prefer small
+	// slices), falling back to the proof query's own model
+	var r1 SolverResult
+	if len(e.recInfo) > 0 {
+		rb := e.groundRec(base, 8)
+		used := rb != base
+		if used {
+			var small []string
+			for _, w := range ri.params {
+				if sl, ok := w.Ty.Underlying().(*types.Slice); ok {
+					small = append(small, fmt.Sprintf("(assert (<= (sl_len %s) 6))", w.Term))
+					// elements are values of their Go type
+					e.bv = ri.bv
+					c, _ := e.elemComp(sl.Elem())
+					h, ok := ri.heap[c]
+					if !ok {
+						h = quoteSym(strings.Trim(c, "|") + "@0")
+					}
+					for k := 0; k < 6; k++ {
+						el := fmt.Sprintf("(select (select %s (sl_reg %s)) (+ (sl_off %s) %d))", h, w.Term, w.Term, k)
+						if r := e.rangeOf(el, sl.Elem()); r != "true" {
+							small = append(small, "(assert "+r+")")
+						}
+					}
+				}
+			}
+			rb = strings.Replace(rb, "(check-sat)", strings.Join(small, "\n")+"\n(check-sat)", 1)
+			q0 := rb + "\n(get-value (" + strings.Join(terms, " ") + "))\n"
+			dumpQuery(filepath.Join(opt.VerifDir, "out", id), "replaysearch_"+strings.TrimPrefix(o.Name, id+"/"), q0)
+			r1 = Solve(q0, e.TimeoutMs, "")
+			if r1.Status == "sat" {
+				base = rb
+			}
+		}
+	}
 	q1 := base + "\n(get-value (" + strings.Join(terms, " ") + "))\n"
-	r1 := Solve(q1, e.TimeoutMs, o.Result.Backend)
+	if r1.Status != "sat" {
+		r1 = Solve(q1, e.TimeoutMs, o.Result.Backend)
+	}
 	if r1.Status != "sat" {
 		r1 = Solve(q1, e.TimeoutMs, "")
 	}
